@@ -74,10 +74,13 @@ TCrash   == IsEvent("crash") /\ CrashWhen(TRUE) /\ LoggedP(Ev.s)
 TCancel  == IsEvent("sendcancel") /\ SendCancel /\ LoggedP(Ev.s)
 TSignal  == IsEvent("sendsignal") /\ SendSignal(Ev.stage, Ev.pers) /\ LoggedP(Ev.s)
 TClaimSweep == IsEvent("claimsweep") /\ ClaimSweep /\ LoggedP(Ev.s)
+TPause   == IsEvent("pause") /\ PauseWorkflow /\ LoggedP(Ev.s)
+TUnpause == IsEvent("unpause") /\ Unpause /\ LoggedP(Ev.s)
+TRestart == IsEvent("sendrestart") /\ SendRestart(Ev.stage) /\ LoggedP(Ev.s)
 TEarly   == IsEvent("early") /\ EarlyStart(Ev.stage) /\ LoggedP(Ev.s)
 
 TraceNext == TCommit \/ TDedup \/ TTrusted \/ TBloomReset \/ TExec \/ THRet \/ THRaise \/ THFail \/ TNoAck \/ TWarp \/ TExpire
-             \/ TSweep \/ TDlq \/ TCrash \/ TCancel \/ TEarly \/ TSignal \/ TClaimSweep
+             \/ TSweep \/ TDlq \/ TCrash \/ TCancel \/ TEarly \/ TSignal \/ TClaimSweep \/ TPause \/ TUnpause \/ TRestart
 
 TraceSpec == TraceInit /\ [][TraceNext]_tvars
 
@@ -86,7 +89,9 @@ AuditLegal ==
   (l > 1 /\ l - 1 <= Len(Events) /\ "audit" \in DOMAIN Events[l - 1]) =>
      \A i \in DOMAIN Events[l - 1].audit :
         LET a == Events[l - 1].audit[i] IN
-        CanTransition(a.old, a.new) \/ (lbl.name = "JumpApply" /\ a.new = "NOT_STARTED")
+        \/ CanTransition(a.old, a.new)
+        \/ (lbl.name \in {"JumpApply", "RestartStage"} /\ a.new = "NOT_STARTED")
+        \/ (lbl.name = "RestartStage" /\ a.tbl = "wf" /\ a.new = "RUNNING")
 
 (* Bookkeeping in TLC registers (run with -workers 1):
      1 = per trace the longest matched prefix (index of the next event to consume)
